@@ -4,9 +4,12 @@
 // (SessionManager.runBridgeLifecycle) between scripted endpoints.
 //
 // copy   lim <L|-> rd <n> (<hex> <n|t|f> <canc>)* wr <m> (<accept> <err>)*
-//        ## del <hex> total <n> counter <n>
+//
+//	## del <hex> total <n> counter <n>
+//
 // bridge lim <L|-> src <n> (<hex> <n|t|f> <after>)* tgt <n> (…)* sw <m> (<accept> <err>)* tw <m> (…)*
-//        ## tt <hex> ts <hex> s2teof <b> t2seof <b> ret <b> sc <b> tc <b> rem <b> sent <n> recv <n>
+//
+//	## tt <hex> ts <hex> s2teof <b> t2seof <b> ret <b> sc <b> tc <b> rem <b> sent <n> recv <n>
 package main
 
 import (
@@ -150,10 +153,16 @@ type scriptConn struct {
 	closed      bool
 	eofReturned bool
 	name        string
+	// re-attachment runs: the Read that would serve event `pauseAt` (or the end of the script)
+	// waits until the harness releases it; `holdAtEnd`: the end of the script never arrives
+	pauseAt   int
+	atPause   bool
+	released  bool
+	holdAtEnd bool
 }
 
 func newScriptConn(name string, reads []readEv, writes []writeEv) *scriptConn {
-	c := &scriptConn{reads: reads, writes: writes, name: name}
+	c := &scriptConn{reads: reads, writes: writes, name: name, pauseAt: -1}
 	c.cond = sync.NewCond(&c.mu)
 	return c
 }
@@ -165,7 +174,17 @@ func (c *scriptConn) Read(p []byte) (int, error) {
 		if c.closed {
 			return 0, net.ErrClosed
 		}
+		if c.ri == c.pauseAt && !c.released {
+			c.atPause = true
+			c.cond.Broadcast()
+			c.cond.Wait()
+			continue
+		}
 		if c.ri >= len(c.reads) {
+			if c.holdAtEnd {
+				c.cond.Wait()
+				continue
+			}
 			c.eofReturned = true
 			return 0, io.EOF
 		}
@@ -382,6 +401,8 @@ func execCase(out *vc.Out, caseStr string) {
 			}
 		}
 		out.Case(caseStr, obs, key)
+	case "reattach", "reattachfree":
+		execReattach(out, caseStr, toks)
 	case "bridge":
 		src, i := parseReads(toks, 3, true)
 		tgt, i := parseReads(toks, i, true)
@@ -586,6 +607,7 @@ func main() {
 	seed := flag.Uint64("seed", 1, "")
 	stats := flag.String("stats", "", "")
 	noGen := flag.Bool("nogen", false, "")
+	only := flag.String("only", "", "reattach: generate re-attachment runs only")
 	flag.Parse()
 	out := vc.NewOut()
 	for _, f := range flag.Args() {
@@ -607,7 +629,10 @@ func main() {
 		}
 	}
 	if !*noGen {
-		gen(out, vc.NewRand(*seed), *tier == "thorough")
+		if *only == "" {
+			gen(out, vc.NewRand(*seed), *tier == "thorough")
+		}
+		genReattach(out, vc.NewRand(*seed+77), *tier == "thorough")
 	}
 	out.Finish(*stats, nil)
 }
